@@ -24,7 +24,8 @@ pub fn property() -> Property {
     }
 }
 
-const METHODS: [&str; 4] = ["GET", "HEAD", "POST", "PURGE"];
+// (method tokens are case-sensitive: `head` is an extension method, not HEAD - its responses have bodies)
+const METHODS: [&str; 5] = ["GET", "HEAD", "POST", "PURGE", "head"];
 const STATUSES: [u16; 12] = [100, 101, 199, 200, 203, 204, 205, 206, 304, 301, 404, 500];
 
 #[derive(Clone, Copy, Debug, PartialEq)]
@@ -130,7 +131,7 @@ fn run_matrix_whole(ctx: &mut Ctx, rng: &mut Rng, index: u64) {
     run_matrix(ctx, rng, index, 0)
 }
 fn run_matrix_bytewise(ctx: &mut Ctx, rng: &mut Rng, index: u64) {
-    // quick tier: a stride through the matrix (7 is coprime to the matrix size 4 x 12 x 22 x 17 x 2)
+    // quick tier: a stride through the matrix (7 is coprime to the matrix size 5 x 12 x 22 x 17 x 2)
     let idx = if ctx.tier == Tier::Quick { index * 7 } else { index };
     run_matrix(ctx, rng, idx % matrix_size(), 1)
 }
